@@ -474,6 +474,75 @@ def into_response_tables(d):
     return kinds
 
 
+MERGE_TAIL_OLD = "letnew_function_name=new_handler.function_name();letnew_reply_on=new_handler.msg_attr().reply_on();self.handlers.push((new_function_name,new_reply_on));}"
+MERGE_TAIL_NEW = "ifself.data.is_none(){self.data=new_reply_data.data;}" + MERGE_TAIL_OLD
+AS_REPLY_DATA = ("{letmutreply_data:Vec<ReplyData>=vec![];self.variants().flat_map(ReplyVariant::as_variant_handlers_pair).for_each(|(handler,handler_id)|"
+                 "{letreply_on=handler.msg_attr().reply_on();letreply_id=handler_id.as_reply_id();matchreply_data.iter_mut().find(|existing_data|existing_data.reply_id==reply_id)"
+                 "{Some(existing_data)ifexisting_data.handlers.iter().any(|(_,existing_reply_on)|existing_reply_on.excludes(&reply_on))=>")
+CW_REPLY_ON = ("ifis_always||(is_success&&is_error){quote!{#sylvia::cw_std::ReplyOn::Always}}elseifis_success{quote!{#sylvia::cw_std::ReplyOn::Success}}"
+               "else{quote!{#sylvia::cw_std::ReplyOn::Error}}}")
+
+
+def reply_forms(d):
+    """forms of the reply-table construction the Reply model mirrors; returns dataFromLater"""
+    f = "contract/communication/reply.rs"
+    later = False
+    fn = d.fn(f, "ReplyData", "merge")
+    if fn is not None:
+        b = fn["body"]
+        if b.endswith(MERGE_TAIL_NEW):
+            later = True
+        elif not b.endswith(MERGE_TAIL_OLD):
+            d.problems.append("ReplyData::merge no longer ends in a recognised form")
+        for frag in ("letnew_reply_data=ReplyData::new(self.reply_id.clone(),new_handler,self.handler_id);",
+                     "ifself.payload.len()!=new_reply_data.payload.len(){emit_error!(",
+                     "ifcurrent_field.ty()!=new_field.ty(){emit_error!("):
+            if frag not in b:
+                d.problems.append("ReplyData::merge: expected fragment missing: " + frag[:50])
+    fn = d.fn(f, "MsgVariants", "as_reply_data")
+    if fn is not None and not fn["body"].startswith(AS_REPLY_DATA):
+        d.problems.append("as_reply_data no longer has the recognised fold form")
+    if fn is not None:
+        for frag in ("Some(existing_data)=>existing_data.merge(handler),", "None=>reply_data.push(ReplyData::new(reply_id,handler,handler_id)),"):
+            if frag not in fn["body"]:
+                d.problems.append("as_reply_data: expected arm missing: " + frag[:40])
+    fn = d.fn(f, "ReplyData", "emit_cw_reply_on")
+    if fn is not None and not fn["body"].endswith(CW_REPLY_ON):
+        d.problems.append("emit_cw_reply_on no longer has the recognised form")
+    fn = d.fn(f, "ReplyData", "new")
+    if fn is not None:
+        for frag in ("letpayload=ifdata.is_some()||variant.msg_attr().reply_on()!=ReplyOn::Success{payload.skip(NUMBER_OF_ALLOWED_DATA_FIELDS).collect::<Vec<_>>()}else{payload.collect::<Vec<_>>()};",
+                     "ifpayload.is_empty(){emit_error!(", "assert_no_redundant_params(&payload);"):
+            if frag not in fn["body"]:
+                d.problems.append("ReplyData::new: expected fragment missing: " + frag[:50])
+    for name, want in (("emit_success_match_arm", [("Some((method_name,reply_on))", "reply_on==&ReplyOn::Success"), ("Some((method_name,reply_on))", "reply_on==&ReplyOn::Always"), ("_", None)]),
+                       ("emit_error_match_arm", [("Some((method_name,reply_on))", "reply_on==&ReplyOn::Error"), ("Some((method_name,reply_on))", "reply_on==&ReplyOn::Always"), ("_", None)])):
+        m = d.match(f, "ReplyData", name, r"self\.handlers\.iter\(\)\.find")
+        if m is not None:
+            got = [(a["pats"][0], a["guard"]) for a in m["arms"]]
+            if got != want:
+                d.problems.append("%s: arms changed: %s" % (name, got))
+    fn = d.fn(f, "ReplyData", "emit_submsg_setter")
+    if fn is not None and "Ok(#sylvia::cw_std::SubMsg{reply_on:#reply_on,id:#reply_id,payload,..self})" not in fn["body"]:
+        d.problems.append("emit_submsg_setter: the SubMsg is no longer rebuilt as {reply_on, id, payload, ..self}")
+    fn = d.fn(f, "ReplyData", "emit_submsg_converter")
+    if fn is not None and "Ok(#sylvia::cw_std::SubMsg{reply_on:#reply_on,id:#reply_id,msg:self.into(),payload,gas_limit:None,})" not in fn["body"]:
+        d.problems.append("emit_submsg_converter: the SubMsg is no longer built as {reply_on, id, msg: self.into(), payload, gas_limit: None}")
+    fn = d.fn(f, "Vec", "emit_payload_serialization")
+    if fn is not None and ("letpayload=#payload_value;" not in fn["body"] or "letpayload=#sylvia::cw_std::to_json_binary(&(#(#payload_values),*))?;" not in fn["body"]):
+        d.problems.append("emit_payload_serialization no longer has the recognised form")
+    fn = d.fn(f, "Vec", "emit_payload_deserialization")
+    if fn is not None and ("let#payload_value=payload;" not in fn["body"] or "let(#(#deserialized_payload_names),*)=#sylvia::cw_std::from_json(&payload)?;" not in fn["body"]):
+        d.problems.append("emit_payload_deserialization no longer has the recognised form")
+    fn = d.fn(f, "Ident", "as_reply_id")
+    if fn is not None and 'format!{"{}_REPLY_ID",self.to_string().to_case(Case::UpperSnake)}' not in fn["body"]:
+        d.problems.append("as_reply_id no longer builds <UPPER_SNAKE>_REPLY_ID")
+    excl = d.fn("parser/attributes/msg.rs", "ReplyOn", "excludes")
+    if excl is not None and excl["body"] != "{letare_equal=self==other;letis_any_always=self==&ReplyOn::Always||other==&ReplyOn::Always;are_equal||is_any_always}":
+        d.problems.append("ReplyOn::excludes no longer has the recognised form")
+    return later
+
+
 def kt(rows, val):
     return llist("(.%s, %s)" % (KINDS[k], val(v)) for k, v in rows)
 
@@ -510,6 +579,7 @@ def generate(dump_lines):
     strip_forms(d)
     prule = published_rule(d)
     conv = into_response_tables(d)
+    later = reply_forms(d)
 
     o = []
     o.append("import Sylvia.Model.Kinds")
@@ -542,6 +612,8 @@ def generate(dump_lines):
     o.append("def publishedRule : Nat := %d" % prule)
     o.append("/-- message kinds `IntoMsg::into_msg` has a converting arm for (all cargo features of the harness enabled) -/")
     o.append("def convertible : List Sylvia.Runtime.MsgKind := %s" % llist("." + k for k in conv))
+    o.append("/-- does `ReplyData::merge` take the data parameter from a later method when the first one has none? -/")
+    o.append("def replyDataFromLater : Bool := %s" % ("true" if later else "false"))
     o.append("def epDefaults : List Kind := %s" % llist("." + KINDS[k] for k in (ep.get("defaults") or []) if k in KINDS))
     o.append("")
     o.append("end Extracted")
